@@ -53,7 +53,7 @@ func runSizeQ(a *args, res *result) {
 		}
 		r := newRng(a.seed, uint64(i)*8+4)
 		fp := newFP()
-		if sizeTwinsOnly && i%4 == 0 || !sizeTwinsOnly && i%16 == 13 {
+		if sizeTwinsOnly && i%4 <= 1 || !sizeTwinsOnly && i%16 == 13 {
 			hotFill(r, res, i)
 			continue
 		}
